@@ -324,7 +324,9 @@ PROPS.update({
               "theorems c02_* (one-step, all states) on top of C05/C21; monitor Spec.c02 on implementation traces"),
     "C16": gw("C16",
               "GATEWAY HALF: Lean theorems c16_setDup (a retransmission differs in the DUP flag only), c16_retry_resends, c16_retry_gives_up (RetryCount budget; timing "
-              "is C19), c16_retry_suspended_while_asleep, c16_puback / c16_pubrec / c16_pubrel / c16_pubcomp (+ duplicates ignored) for ALL states; monitor Spec.c16 "
+              "is C19), c16_retry_suspended_while_asleep, c16_puback / c16_pubrec / c16_pubrel / c16_pubcomp (+ duplicates ignored) for ALL states; ALL RUNS: "
+              "c16_retry_counter_bounded (in EVERY reachable state the retry counter of every gateway-initiated exchange is at most RetryCount: invariant AllB, frame FB, "
+              "Lemmas/GwRetry.lean); monitor Spec.c16 "
               "(timer-driven copies carry DUP, repeat a datagram already sent, stay within the budget) on implementation traces. End-to-end completion under loss on a real "
               "lossy link is NOT run (the system suite has a lossless link)",
               "theorems c16_* (gateway model); monitor Spec.c16",
